@@ -528,7 +528,8 @@ func c23Ops(keys []string, thorough bool) []c23Op {
 		ops = append(ops, c23Op{name: "batch.delrange(" + rname(r) + ")", kind: "bdelrange", s: r.s, e: r.e, sNil: r.sNil, eNil: r.eNil})
 	}
 	ops = append(ops, c23Op{name: "batch.write", kind: "bwrite"}, c23Op{name: "batch.reset", kind: "breset"}, c23Op{name: "batch.replay", kind: "breplay"})
-	for _, ps := range [][2]string{{"", ""}, {"a", ""}, {"a", "b"}, {"", "ab"}} {
+	// prefixes ending in 0xff (whose exclusive upper bound needs a carry), an all-0xff prefix and a start beyond the prefix range
+	for _, ps := range [][2]string{{"", ""}, {"a", ""}, {"a", "b"}, {"", "ab"}, {"a\xff", ""}, {"\xff", ""}, {"a", "\xff"}} {
 		ops = append(ops, c23Op{name: fmt.Sprintf("iter.open(prefix=%q,start=%q)", ps[0], ps[1]), kind: "iopen", k: ps[0], s: ps[1]})
 	}
 	ops = append(ops, c23Op{name: "iter.drain", kind: "idrain"})
@@ -542,7 +543,7 @@ func TestVerif_C23(t *testing.T) {
 			dir = t.TempDir()
 		}
 		c23Pool.dir = dir
-		keys := []string{"a", "ab", "b", "\xff"}
+		keys := []string{"a", "a\xff", "ab", "b", "\xff"}
 		thorough := r.Thorough()
 		ops := c23Ops(keys, thorough)
 		names := make([]string, len(ops))
@@ -556,7 +557,7 @@ func TestVerif_C23(t *testing.T) {
 			"(contents, pending batch, open iterator snapshot); two start states (empty, 3 keys)")
 		r.Assume("leveldb's batch.DeleteRange is a documented fallback (deletes the keys present when it is called); it is checked against a model of that fallback, and its divergence from the other backends is reported as a known finding")
 		depth := mc.Pick(r, 3, 4)
-		for si, init := range []map[string]string{{}, {"a": "1", "ab": "2", "\xff": "3"}} {
+		for si, init := range []map[string]string{{}, {"a": "1", "ab": "2", "\xff": "3", "b": "4", "a\xff": "5"}} {
 			init := init
 			r.Explore(mc.Config{
 				Name:  fmt.Sprintf("kv-start%d", si),
